@@ -793,17 +793,6 @@ def compare(case, obs, line, ids):
 
 
 # ------------------------------------------------------------------ known findings
-def is_f12(v):
-    """node-level ROADM target of exactly 0 dBm rejected at design with 'needs an equalization target'"""
-    c = v.get('case', {})
-    if v.get('key') != 'valid_policy_rejected' or c.get('kind') != 'L':
-        return False
-    lp = [k for k in POL if k in c['policy']]
-    eff = c['policy'] if len(lp) == 1 else c['eq_policy']
-    return (list(eff) == [POL[0]] and eff[POL[0]] is not None and float(eff[POL[0]]) == 0.0
-            and 'design raised ConfigurationError' in v['description'] and 'needs an equalization target' in v['description'])
-
-
 def is_null_policy(v):
     """explicit JSON null as policy value + every egress OMS with its own target: loaded with no policy in force"""
     c = v.get('case', {})
@@ -811,7 +800,8 @@ def is_null_policy(v):
             and (any(x is None for x in c['policy'].values()) or any(x is None for x in c['eq_policy'].values())))
 
 
-MATCHERS = {'F12-roadm-zero-dbm-target': is_f12, 'F16-roadm-null-policy-accepted': is_null_policy}
+# F12 (0 dBm node target rejected at design) is fixed in /repo (53faecc1): corpus/C06/f12_*.json are regressions that must pass
+MATCHERS = {'F16-roadm-null-policy-accepted': is_null_policy}
 
 
 # ------------------------------------------------------------------ run
